@@ -82,6 +82,14 @@ def gen_inputs(ctx):
         if rnd.random() < 0.4:
             for _ in range(rnd.randint(1, 3)):
                 lines = pdbgen.insert_at_random(rnd, lines, pdbgen.water(rnd, lines))
+        if rnd.random() < 0.3:
+            # coordinate fields that use all eight columns for part of the atoms (across -100.000 or a multiple of 1000)
+            box = pdbgen.bbox(lines)
+            t = [0.0, 0.0, 0.0]
+            ax = rnd.randrange(3)
+            t[ax] = round(rnd.choice([-100.0, 1000.0, 1000.0 * rnd.randint(2, 9)]) - rnd.uniform(*box[ax]), 3)
+            lines = pdbgen.translate(lines, *t)
+            ctx.count("inputs with 8-column coordinates")
         out.append(("gen%d" % i, pdbgen.text(lines)))
     return out
 
